@@ -494,7 +494,8 @@ func (t *Transition) emitSelfEvents() Result {
 	m := t.Machine
 	ret := Executed
 	var handlerCalled bool
-	for _, s := range t.TargetStates() {
+	// (a copy: a rejected auto state is deleted from the target in place)
+	for _, s := range slices.Clone(t.TargetStates()) {
 		// only the active states
 		if !t.Machine.Is(S{s}) {
 			continue
